@@ -252,6 +252,9 @@ func runC29(p *core.Prog, r *core.Report) {
 	if len(writers) == 0 {
 		r.Fatalf("C29.R3: no writer of Streamer.target found")
 	}
+	// R2: late eACL evaluation against the object's header
+	r2 := r.Rule("C29.R2", "wherever the deferred eACL re-check flag (getStream.recheckEACL) is consulted, every return and every response send is preceded by: flag false, or CheckEACL on the header passed (ErrNotMatched tolerated); a return may also follow a failed CheckEACL (error propagated)", 6)
+	runLateEACL(p, r, r2)
 	// R5: tokens attached only after verification
 	r5 := r.Rule("C29.R5", "request tokens are recorded only after the corresponding Verify*TokenMessage returned nil; handleRequestMetaHeader succeeds only if _handleRequestMetaHeader did", 4)
 	tokGuards := []core.Guard{
@@ -425,5 +428,100 @@ func checkFieldNonNilBeforeUse(p *core.Prog, h *core.RuleH, fn *ssa.Function, fi
 	}
 	if n == 0 {
 		h.Bad(core.FuncName(fn)+"#no-use", p.Pos(fn.Pos()), "no use of "+field+" found: anchor changed")
+	}
+}
+
+// runLateEACL implements C29.R2.
+func runLateEACL(p *core.Prog, r *core.Report, h *core.RuleH) {
+	const flagField = "(pkg/services/object.getStream).recheckEACL"
+	isFlagLoad := func(_ *ssa.Function, v ssa.Value) bool {
+		u, ok := v.(*ssa.UnOp)
+		if !ok {
+			return false
+		}
+		fa, ok := u.X.(*ssa.FieldAddr)
+		return ok && core.FieldAddrName(fa) == flagField
+	}
+	eaclCall := func(s core.Site) bool { return s.Name == "(pkg/services/object/acl/v2.ACLChecker).CheckEACL" }
+	guards := []core.Guard{
+		{Name: "recheck-not-required", Comps: []core.Comp{{Result: -1, Kind: core.IsFalse}}, Value: isFlagLoad},
+		{Name: "header-eacl-passed", Match: eaclCall, Comps: []core.Comp{{Result: -1, Kind: core.ErrNil, Accept: []string{errNotMatched}}}},
+		{Name: "header-eacl-failed", Match: eaclCall, Comps: []core.Comp{{Result: -1, Kind: core.NonNil}, {Result: -1, Kind: core.ErrNotIs, Accept: []string{errNotMatched}}}},
+		{Name: "header-validated", Match: func(s core.Site) bool { return s.Name == "(*pkg/services/object.getStream).ValidateHeader" }, Comps: []core.Comp{{Result: -1, Kind: core.ErrNil}}},
+	}
+	der := []core.Derived{
+		{Name: "eacl-decided", Alts: [][]string{{"recheck-not-required"}, {"header-eacl-passed"}, {"header-eacl-failed"}, {"header-validated"}}},
+		{Name: "eacl-allows", Alts: [][]string{{"recheck-not-required"}, {"header-eacl-passed"}, {"header-validated"}}},
+	}
+	n := 0
+	for _, fn := range p.FuncsIn("pkg/services/object") {
+		reads, propagates := false, false
+		for _, b := range fn.Blocks {
+			for _, in := range b.Instrs {
+				if v, ok := in.(ssa.Value); ok && isFlagLoad(fn, v) {
+					reads = true
+				}
+				if c, ok := in.(ssa.CallInstruction); ok && strings.HasSuffix(core.CalleeName(c), ").RequireEACLRecheck") {
+					propagates = true
+				}
+			}
+		}
+		calls := len(core.CallSites([]*ssa.Function{fn}, func(s core.Site) bool { return s.Name == "(*pkg/services/object.getStream).ValidateHeader" })) > 0
+		if !reads && !calls {
+			continue
+		}
+		if propagates {
+			// convertGetPrm hands the flag to the get service (RequireEACLRecheck): the call must happen whenever the flag is set
+			pg := []core.Guard{{Name: "recheck-required", Comps: []core.Comp{{Result: -1, Kind: core.IsTrue}}, Value: isFlagLoad}}
+			gf := core.Flow(fn, pg)
+			for _, s := range core.CallSites([]*ssa.Function{fn}, func(s core.Site) bool { return strings.HasSuffix(s.Name, ").RequireEACLRecheck") }) {
+				n++
+				h.Check(gf.Passed(gf.At(s.Call), 0), core.FuncName(fn)+"#RequireEACLRecheck", p.InstrPos(s.Call), "re-check request is propagated exactly under the flag", "RequireEACLRecheck is not tied to the recheckEACL flag")
+				// and no path with the flag true skips it: the true edge block must contain the call
+				blk := s.Call.Block()
+				ok := false
+				for _, pr := range blk.Preds {
+					if ifi, isIf := pr.Instrs[len(pr.Instrs)-1].(*ssa.If); isIf && isFlagLoad(fn, ifi.Cond) && pr.Succs[0] == blk {
+						ok = true
+					}
+				}
+				h.Check(ok, core.FuncName(fn)+"#RequireEACLRecheck#unconditional-under-flag", p.InstrPos(s.Call), "the flag's true edge leads straight to RequireEACLRecheck", "a path with recheckEACL set may skip RequireEACLRecheck")
+			}
+			continue
+		}
+		n++
+		isWriteHeaderLike := calls && !reads
+		core.CheckEffectsFn(p, h, fn, core.EffectRule{Guards: guards, Derived: der, Effect: func(p *core.Prog, in ssa.Instruction) (string, bool) {
+			switch x := in.(type) {
+			case *ssa.Return:
+				if isWriteHeaderLike {
+					return "", false
+				}
+				// a value-returning function: only success returns matter
+				if len(x.Results) > 0 {
+					last := x.Results[len(x.Results)-1]
+					if last.Type().String() == "error" {
+						if c, ok := last.(*ssa.Const); !ok || !c.IsNil() {
+							return "", false
+						}
+					}
+				}
+				return "return", true
+			case ssa.CallInstruction:
+				nm := core.CalleeName(x)
+				if strings.HasSuffix(nm, ").SendMsg") || nm == objSrv+".sendGetResponse" || strings.HasSuffix(nm, ").Send") {
+					return "send " + nm, true
+				}
+			}
+			return "", false
+		}, Need: func(desc string) []string {
+			if desc == "return" {
+				return []string{"eacl-decided"}
+			}
+			return []string{"eacl-allows"}
+		}})
+	}
+	if n < 3 {
+		r.Fatalf("C29.R2: only %d functions consult the deferred eACL flag (expected ValidateHeader, WriteHeader, handleInitResponse closure, convertGetPrm)", n)
 	}
 }
